@@ -135,6 +135,8 @@ impl OpenEventIndex {
         file: &mut File,
         index: &BTreeMap<Uuid, u64>,
     ) -> Result<(Mphf<Uuid>, u64), EventIndexError> {
+        #[cfg(sierradb_verif)]
+        crate::verif::point("index_flush.before", &[0]);
         // Collect all keys from the index.
         let keys: Vec<Uuid> = index.keys().cloned().collect();
         let n = keys.len() as u64;
